@@ -106,6 +106,11 @@ fn cert_template(t: &str) -> Value {
 		p["serial"] = json!({"k": "auto", "b": []});
 	}
 	p["custom"] = json!([{"oid": "1.3.6.1.4.1.55555.1", "crit": false, "content": "0c0568656c6c6f"}, {"oid": "1.3.6.1.4.1.55555.2", "crit": true, "content": "0500"}]);
+	if t.contains("/auto/") {
+		// no serial number given (derived from the subject key), subject key = the issuer's key, subject name of its own
+		p["serial"] = json!({"k": "auto", "b": []});
+		p["dn"] = json!([{"ty": "2.5.4.3", "kind": "utf8", "val": text("cross certificate")}]);
+	}
 	if t.ends_with("/e0") {
 		// the shortest key identifier a caller can give
 		p["kid"] = json!({"k": "pre", "b": []});
@@ -120,6 +125,7 @@ fn crl_template(t: &str) -> Value {
 		"revoked": [
 			{"serial": [1], "time": tm(2), "reason": {"k": "some", "code": 1}, "invalidity": {"k": "some", "t": tm(1)}},
 			{"serial": [0, 200], "time": tm(3), "reason": {"k": "none", "code": 0}, "invalidity": {"k": "none", "t": tm(1)}},
+			{"serial": [7], "time": tm(3), "reason": {"k": "some", "code": 0}, "invalidity": {"k": "some", "t": tm(2)}},
 			{"serial": [9, 9, 9], "time": tm(4), "reason": {"k": "some", "code": 9}, "invalidity": {"k": "none", "t": tm(1)}}],
 		"kid": if t.ends_with("/e0") { json!({"k": "pre", "b": []}) } else { kid(b, if b { "sha384" } else { "sha512" }) }})
 }
@@ -228,8 +234,10 @@ pub fn gen_opt(t: &str, sh: &Shared, tid: u64, pid: u32, phase: &str, case: &str
 			let p = to_crl_params(&crl_template(t)).unwrap();
 			let (iss, ikey) = issuer_of(t, sh);
 			signer_spki = ikey.info.spki.clone();
+			// the parameters are consumed: what the returned object reports is compared with their rendering before the call
+			let before = format!("{:?}", p);
 			match guarded(|| p.signed_by(iss, &ikey.kp)) {
-				Outcome::Ok(c) => (Ok(c.der().to_vec()), true, true),
+				Outcome::Ok(c) => (Ok(c.der().to_vec()), format!("{:?}", c.params()) == before, true),
 				Outcome::Err(e) => (Err(e), true, true),
 				Outcome::Panic(m) => (Err(format!("panic {}", m)), true, true),
 			}
@@ -306,10 +314,10 @@ pub fn interfere(x: &str, sh: &Shared, rng: &mut Rng) {
 	});
 }
 
-pub const TEMPLATES: [&str; 17] = ["cert-self/r3", "cert-self/e0", "crl/e0", "cert-self/1", "cert-self/2", "cert-issued/1", "cert-issued/2", "csr/1", "csr/2", "crl/1", "crl/2",
+pub const TEMPLATES: [&str; 18] = ["cert-issued/auto/2", "cert-self/r3", "cert-self/e0", "crl/e0", "cert-self/1", "cert-self/2", "cert-issued/1", "cert-issued/2", "csr/1", "csr/2", "crl/1", "crl/2",
 	"cert-issued/n2", "cert-issued/k2", "cert-issued/ra", "cert-issued/rb", "crl/n2", "crl/k2"];
 /// cheap templates (Ed25519 signers) that alternate between issuers differing in one component: hammered by the hot phase
-pub const HOT: [&str; 6] = ["cert-issued/1", "cert-issued/n2", "cert-issued/k2", "crl/1", "crl/n2", "crl/k2"];
+pub const HOT: [&str; 7] = ["cert-issued/1", "cert-issued/n2", "cert-issued/k2", "crl/1", "crl/n2", "crl/k2", "cert-issued/auto/2"];
 
 /// child: sessions (from file) + threads; writes events to `out_path`
 pub fn child(dir: &str, sessions_path: &str, out_path: &str, threads: usize, gens: usize) {
